@@ -56,12 +56,12 @@ const betweenFile = "// Package between has comments of its own.\npackage betwee
 
 // shared identifier resolver kinds
 const (
-	identGoastNew     = iota // goast.New(): name resolver defaulted lazily on first use
-	identGoastGuess          // goast.WithResolver(guess.New())
-	identGoastMap            // goast.WithResolver(guess.WithMap(truth))
-	identGoastSimple         // goast.WithResolver(simple.New(truth))
-	identGoastGobuild        // goast.WithResolver(gobuild over the stub finder)
-	identGoastGopackages     // goast.WithResolver(gopackages.WithHints(truth)): every lookup is answered from the hints
+	identGoastNew        = iota // goast.New(): name resolver defaulted lazily on first use
+	identGoastGuess             // goast.WithResolver(guess.New())
+	identGoastMap               // goast.WithResolver(guess.WithMap(truth))
+	identGoastSimple            // goast.WithResolver(simple.New(truth))
+	identGoastGobuild           // goast.WithResolver(gobuild over the stub finder)
+	identGoastGopackages        // goast.WithResolver(gopackages.WithHints(truth)): every lookup is answered from the hints
 	numIdentKinds
 )
 
